@@ -324,7 +324,8 @@ impl SwiftField for Field59 {
         Self: Sized,
     {
         match variant {
-            None => {
+            // the message parser passes an empty letter for a field written without option
+            None | Some("") => {
                 let field = Field59NoOption::parse(value)?;
                 Ok(Field59::NoOption(field))
             }
@@ -389,7 +390,8 @@ impl SwiftField for Field59Debtor {
         Self: Sized,
     {
         match variant {
-            None => {
+            // the message parser passes an empty letter for a field written without option
+            None | Some("") => {
                 let field = Field59NoOption::parse(value)?;
                 Ok(Field59Debtor::NoOption(field))
             }
